@@ -555,5 +555,12 @@ def _mc_eq(prog):
     return mc_eq(prog)
 
 
+def _rel_edges(prog):
+    # the closure is computed over the relations the graph hands out: one hidden behind a parallel edge is a premise that is never used
+    from .c14 import rel_edges
+
+    return rel_edges(prog)
+
+
 def run(prog: Program, tier: str) -> List[RuleResult]:
-    return [pd_closure(prog), pd_owner(prog), pd_supers(prog), _mc_eq(prog), pd_replace(prog), pd_init(prog), user_truth(prog, ["property_descriptor.property_descriptor", "property_descriptor.monitored_container", "property_descriptor.property_descriptor_relation"], 2)]
+    return [_rel_edges(prog), pd_closure(prog), pd_owner(prog), pd_supers(prog), _mc_eq(prog), pd_replace(prog), pd_init(prog), user_truth(prog, ["property_descriptor.property_descriptor", "property_descriptor.monitored_container", "property_descriptor.property_descriptor_relation"], 2)]
